@@ -41,8 +41,8 @@ func (s *Syncer) VerifLastByInstance() map[string]time.Time {
 	return m
 }
 
-func VerifDupSortEncodeOne(e snapshot.KV) (snapshot.KV, error) { return dupSortHackEncodeOne(e) }
-func VerifDupSortDecodeOne(e snapshot.KV) (snapshot.KV, error) { return dupSortHackDecodeOne(e) }
+func VerifDupSortEncodeOne(e snapshot.KV) (snapshot.KV, error)  { return dupSortHackEncodeOne(e) }
+func VerifDupSortDecodeOne(e snapshot.KV) (snapshot.KV, error)  { return dupSortHackDecodeOne(e) }
 func VerifDupSortEncode(d *snapshot.DBI) (*snapshot.DBI, error) { return dupSortHackEncode(d) }
 func VerifDupSortDecode(d *snapshot.DBI) (*snapshot.DBI, error) { return dupSortHackDecode(d) }
 
